@@ -605,12 +605,15 @@ fn run_hetero(dir: &str, c: &SegCase) -> Value {
             json!({"counts": counts, "bonds": bonds, "mw": p.molarweight[i], "m_counts": mcount, "param_bonds": pb})
         })
         .collect();
-    let mut k = vec![];
+    // (the order of the segments inside a component is the iteration order of a HashMap: sort for a canonical output)
+    let mut kk: Vec<(usize, u32, usize, u32, f64)> = vec![];
     for i in 0..nseg {
         for j in 0..nseg {
-            k.push(json!([p.component_index[i], kinds[i], p.component_index[j], kinds[j], p.k_ij[[i, j]]]));
+            kk.push((p.component_index[i], kinds[i], p.component_index[j], kinds[j], p.k_ij[[i, j]]));
         }
     }
+    kk.sort_by(|a, b| (a.0, a.1, a.2, a.3).cmp(&(b.0, b.1, b.2, b.3)));
+    let k: Vec<Value> = kk.iter().map(|e| json!([e.0, e.1, e.2, e.3, e.4])).collect();
     json!({"ok": {"comps": comps, "k": k}})
 }
 
